@@ -154,6 +154,23 @@ Definition params (qs : str) (body : list N) : qres fdict :=
   | _, _ => QOutOfFuel
   end.
 
+(* ---- one request, several reads of query / forms / params in some order ----
+   Each accessor builds a fresh FormsDict from the environ (QUERY_STRING, body)
+   and caches it; params is a NEW dict (FormsDict(self.query, **self.forms)),
+   so no read can change what another read returns: a read is a function of
+   (qs, body) and of the accessor only. *)
+Inductive accessor := AQuery | AForms | AParams.
+
+Definition read_one (qs : str) (body : list N) (a : accessor) : qres fdict :=
+  match a with
+  | AQuery => query qs
+  | AForms => forms_urlencoded body
+  | AParams => params qs body
+  end.
+
+Definition read_seq (qs : str) (body : list N) (order : list accessor) : list (qres fdict) :=
+  map (read_one qs body) order.
+
 (* ---- correspondence interface ---- *)
 
 Definition enc_fval (v : fval) : list Z :=
@@ -177,6 +194,7 @@ Definition with_str (r : list Z) (f : str -> list Z -> list Z) : list Z :=
 
 (* first integer = kind:
      0 query(qs)          1 forms(body)        2 params(qs, body)     3 parse_qsl(qs) pairs
+    4 read_seq(qs, body, order)   (order: 0 query, 1 forms, 2 params)
     10 utf8_encode s     11 utf8_dec bs       12 utf8_dec_replace bs
     20 quote s           21 quote_plus s      22 unquote s            23 unquote_to_bytes s (ASCII)
     24 urlencode pairs   25 urlencode_q pairs 26 quote(s, safe='/')                           *)
@@ -187,6 +205,14 @@ Definition corr_C18 (inp : list Z) : list Z :=
   | 2%Z :: r => with_str r (fun qs r' => with_str r' (fun b _ => enc_qres enc_fdict (params qs b)))
   | 3%Z :: r => with_str r (fun qs _ =>
                   enc_qres (enc_list (fun kv => enc_str (fst kv) ++ enc_str (snd kv))) (parse_qsl_pairs qs))
+  | 4%Z :: r => with_str r (fun qs r' => with_str r' (fun b r'' =>
+                  match dec_list dec_Z r'' with
+                  | Some (order, _) =>
+                    enc_list (enc_qres enc_fdict)
+                             (read_seq qs b (map (fun z => if Z.eqb z 0 then AQuery
+                                                           else if Z.eqb z 1 then AForms else AParams) order))
+                  | None => bad_input
+                  end))
   | 10%Z :: r => with_str r (fun s _ => enc_opt_str (utf8_encode s))
   | 11%Z :: r => with_str r (fun s _ => enc_opt_str (utf8_dec s))
   | 12%Z :: r => with_str r (fun s _ => enc_str (utf8_dec_replace s))
